@@ -351,3 +351,23 @@ func parserEvaluate(rule string, obj map[string]interface{}) (v bool, esc string
 func rulesEval(rule string, obj map[string]interface{}) (bool, error) {
 	return rules.Evaluate(rule, obj)
 }
+
+// evalOn evaluates on a fresh evaluator or (when poison != nil) on an evaluator that has first processed `poison`
+// objects: every property is stated for Process in general, so its projection must also hold after earlier calls.
+func evalOn(rule string, obj map[string]interface{}, poison []map[string]interface{}) Obs {
+	if len(poison) == 0 {
+		return evalFresh(rule, obj)
+	}
+	ev, err, esc := newEvaluator(rule)
+	if esc != "" {
+		return Obs{E: "escaped", Escaped: esc, D: "-"}
+	}
+	if err != nil {
+		t, f := errorText(err)
+		return Obs{E: "newerr", D: "-", ErrText: t, TextFail: f}
+	}
+	for _, p := range poison {
+		observeProcess(ev, p)
+	}
+	return observeProcess(ev, obj)
+}
